@@ -5,6 +5,7 @@ import (
 	"strings"
 
 	"golang.org/x/tools/go/ssa"
+	"verifcheck/internal/prog"
 	"verifcheck/internal/report"
 )
 
@@ -62,6 +63,9 @@ func (c *Ctx) GLOB(rule string) []report.Obligation {
 					continue
 				}
 				gname := c.P.Rel(g.Pkg.Pkg) + "." + g.Name()
+				if mu := heldGlobalMutex(f, in); mu != "" {
+					what += " (holding " + mu + ")"
+				}
 				k := gname + " :: " + what + " in " + c.P.FuncID(f)
 				if writers[k] {
 					continue
@@ -75,6 +79,45 @@ func (c *Ctx) GLOB(rule string) []report.Obligation {
 	out = append(out, report.Obligation{Rule: rule, Key: "inventory", Status: report.Discharged,
 		Why: "all functions of the module scanned for writes to package-level variables outside init"})
 	return out
+}
+
+// heldGlobalMutex: a package-level sync.Mutex locked with `mu.Lock(); defer mu.Unlock()` dominating the instruction.
+func heldGlobalMutex(f *ssa.Function, at ssa.Instruction) string {
+	var locks []ssa.CallInstruction
+	deferred := map[*ssa.Global]bool{}
+	for _, b := range f.Blocks {
+		for _, in := range b.Instrs {
+			ci, ok := in.(ssa.CallInstruction)
+			if !ok {
+				continue
+			}
+			n := staticName(ci.Common())
+			if len(ci.Common().Args) == 0 {
+				continue
+			}
+			g, isG := ci.Common().Args[0].(*ssa.Global)
+			if !isG {
+				continue
+			}
+			switch n {
+			case "(*sync.Mutex).Lock", "(*sync.RWMutex).Lock":
+				if _, isCall := in.(*ssa.Call); isCall {
+					locks = append(locks, ci)
+				}
+			case "(*sync.Mutex).Unlock", "(*sync.RWMutex).Unlock":
+				if _, isDefer := in.(*ssa.Defer); isDefer && prog.InstrDominates(in, at) {
+					deferred[g] = true
+				}
+			}
+		}
+	}
+	for _, l := range locks {
+		g := l.Common().Args[0].(*ssa.Global)
+		if prog.InstrDominates(l, at) && deferred[g] {
+			return g.Name()
+		}
+	}
+	return ""
 }
 
 func isInitFunc(f *ssa.Function) bool {
